@@ -309,6 +309,8 @@ var localCalls = map[string]func(ctx context.Context, sr *scenRun, arg string){
 	},
 }
 
+var anyIDRe = regexp.MustCompile(`<(?:iq|message|presence)[^>]*\sid="([^"]*)"`)
+
 var iqElemRe = regexp.MustCompile(`(?s)<iq[^>]*\sid="([^"]*)"[^>]*?(/>|>.*?</iq>)`)
 
 func (sr *scenRun) awaitOut(pred func(out string) bool) bool {
@@ -429,6 +431,7 @@ func runScenario(steps []string) outcome {
 		}
 		return outcome{}
 	}
+	defer fx.fw.releaseWrites()
 	abort := func(o outcome) outcome {
 		_ = fx.rs.In.Close()
 		for _, c := range sr.calls {
@@ -571,6 +574,47 @@ func runScenario(steps []string) outcome {
 			}()
 		case "failwrites":
 			fx.fw.failNow()
+		case "holdwrites":
+			// synchronous transport: the peer stops reading, the session's writes block
+			fx.fw.holdWrites()
+		case "releasewrites":
+			fx.fw.releaseWrites()
+		case "awaitblocked":
+			// a local call (or a handler) is blocked in Write
+			deadline := time.Now().Add(wd())
+			for fx.fw.blockedWriters() == 0 && time.Now().Before(deadline) {
+				time.Sleep(150 * time.Microsecond)
+			}
+			// not reaching a write is not a finding by itself (the call may have failed early)
+		case "late":
+			// late stanzas that reuse the id of every stanza the session has written so far
+			// (completed requests): result / error IQs, error presences and messages, receipts
+			seen := map[string]bool{}
+			for _, m := range anyIDRe.FindAllStringSubmatch(string(fx.rs.Out.Bytes()), -1) {
+				id := m[1]
+				if seen[id] || strings.HasPrefix(id, "probe") {
+					continue
+				}
+				seen[id] = true
+				eid := esc(id)
+				for _, st := range []string{
+					iq("result", eid, ""),
+					iq("error", eid, errPayload),
+					`<presence xmlns="jabber:client" type="error" id="` + eid + `" from="room@conf.example/nick">` + errPayload + `</presence>`,
+					`<presence xmlns="jabber:client" type="error" id="` + eid + `" from="example.net">` + errPayload + `</presence>`,
+					`<presence xmlns="jabber:client" id="` + eid + `" from="room@conf.example/nick"/>`,
+					`<message xmlns="jabber:client" type="error" id="` + eid + `" from="example.net">` + errPayload + `</message>`,
+					receipt(id),
+					iq("result", eid, versionPayload),
+				} {
+					if checkServe() {
+						break
+					}
+					if !sr.feed([]byte(st)) && !checkServe() {
+						return abort(outcome{stalled: true, where: fmt.Sprintf("Serve is running but did not consume a late stanza reusing id %q (%.80s…)", id, st)})
+					}
+				}
+			}
 		case "probe":
 			if checkServe() {
 				if serveOut.panicMsg != "" {
@@ -821,6 +865,32 @@ func scenarioList() []scenario {
 		sc("history-fin-answered-twice", "call:hist", await("hq1"), replyto("hq1", "result", finPayload), "wait:hist", feed(mamResult("hq1"))),
 		sc("history-error", "call:hist", await("hq1"), feed(mamResult("hq1")), replyto("hq1", "error", errPayload), "wait:hist"),
 	)
+	// --- synchronous transport: the peer stops reading while a local call is in the middle of a
+	// write, and keeps sending; Serve must go on reading (handlers that do not write must not wait
+	// for anything the blocked writer holds) ---------------------------------------------------
+	plain := `<message xmlns="jabber:client" from="a@b/c" type="chat"><body>x</body></message>`
+	quiet := []string{feed(receipt("nope")), feed(receipt("r1")), feed(mamResult("nope")), feed(mamResult("hq1")),
+		feed(mucPresence("other@conf.example/x", "", true)), feed(mucPresence("room@conf.example/nick", "unavailable", true)), feed(plain), feed(plain)}
+	for _, x := range []string{"uiq", "roster", "pubsub", "cmd", "cmdexec", "disco", "rcpt", "ibbopen", "mucjoin", "hist"} {
+		steps := append([]string{"holdwrites", "call:" + x, "awaitblocked"}, quiet...)
+		steps = append(steps, "releasewrites", "cancel:"+x, "wait:"+x)
+		l = append(l, sc("hold-writes-during-"+x, steps...))
+	}
+	{
+		steps := append([]string{"call:ibbaccept", feed(ibbOpen("i1", "s1")), "wait:ibbaccept", "holdwrites", "call:ibbwrite.in", "awaitblocked"}, quiet...)
+		steps = append(steps, feed(ibbDataMsg("s1", 0)), feed(plain), "releasewrites", auto("<data", "result", ""), "wait:ibbwrite.in")
+		l = append(l, sc("hold-writes-during-ibbwrite", steps...))
+	}
+	// --- late stanzas: after every scenario above, result / error stanzas of every kind that reuse
+	// the ids of the requests the session has sent --------------------------------------------
+	n := len(l)
+	for i := 0; i < n; i++ {
+		if l[i].noProbe {
+			continue
+		}
+		st := append([]string(nil), l[i].steps[:len(l[i].steps)-2]...)
+		l = append(l, scenario{name: l[i].name + "+late", steps: append(st, "late", "probe", "end")})
+	}
 	return l
 }
 
@@ -860,6 +930,11 @@ func (c *ctx) scenarios() {
 	n := c.r.Pick(150, 1500)
 	for i := 0; i < n; i++ {
 		base := pick(rnd, list)
+		if strings.HasPrefix(base.name, "hold-writes") {
+			// with the peer not reading, any inserted stanza whose handler answers would block by
+			// design: these scripts are not varied
+			continue
+		}
 		tail := 2
 		if base.noProbe {
 			tail = 1
